@@ -457,6 +457,13 @@ theorem cshape_newPhrase (sh0 sh : Shared D L) (hb : sh.commitBuf = sh0.commitBu
   · exact cshape_panic env _ _
   · exact cshape_fuel env _
 
+theorem cshape_openPhrase (sh0 sh : Shared D L) (hb : sh.commitBuf = sh0.commitBuf) :
+    CommitShape env w Q sh0 (openPhrase env sh) := by
+  intro sh' t h
+  rcases openPhrase_cases env h with ⟨h1, _⟩ | ⟨rfl, rfl⟩
+  · exact cshape_newPhrase env sh0 sh hb sh' t h1
+  · exact Or.inl ⟨(fun c => by cases c), hb⟩
+
 theorem cshape_newPhraseSimple (sh0 sh : Shared D L) (hb : sh.commitBuf = sh0.commitBuf) :
     CommitShape env w Q sh0 (newPhraseSimple sh) := by
   unfold newPhraseSimple
@@ -480,7 +487,7 @@ theorem cshape_startSelecting (sh : Shared D L) : CommitShape env w Q sh (startS
   unfold startSelecting
   repeat' split
   all_goals first
-    | exact cshape_newPhrase env _ _ rfl
+    | exact cshape_openPhrase env _ _ rfl
     | exact cshape_newSpecialSymbol env _ _ rfl _
     | cshape_leaf
 
@@ -489,7 +496,7 @@ theorem cshape_startSelectingOrInputSpace (sh : Shared D L) (h1 : Q 32) (h2 : Q 
   unfold startSelectingOrInputSpace
   repeat' split
   all_goals first
-    | exact cshape_newPhrase env _ _ rfl
+    | exact cshape_openPhrase env _ _ rfl
     | exact cshape_newSpecialSymbol env _ _ rfl _
     | cshape_leaf
     | skip
@@ -693,6 +700,13 @@ theorem nocommitSel_selDownSpace (s : Selecting) (sh : Shared D L) : NoCommitSel
     | (intro _ h; cases h; done)
     | nocommitsel_leaf
 
+theorem nocommitSel_closeIfEmpty (b0 : Text) (r : SelRes D L) (h1 : r.trans ≠ .spin .commit)
+    (h2 : r.shared.commitBuf = b0) : NoCommitSel b0 (closeIfEmpty env r) := by
+  intro x h
+  rcases closeIfEmpty_cases env h with rfl | rfl
+  · exact ⟨h1, h2⟩
+  · exact ⟨(fun c => by cases c), h2⟩
+
 theorem nocommitSel_selMove (s : Selecting) (sh : Shared D L) (isJ : Bool) :
     NoCommitSel sh.commitBuf (selMove env s sh isJ) := by
   unfold selMove
@@ -709,11 +723,9 @@ theorem nocommitSel_selMove (s : Selecting) (sh : Shared D L) (isJ : Bool) :
         | (injection h with h; injection h with h2 h3; subst h2; exact h1)
     split
     · rename_i sh' s' hq
-      intro x h; injection h with h; subst h
-      exact ⟨(fun c => by cases c), hr _ _ _ hq rfl⟩
+      exact nocommitSel_closeIfEmpty env _ _ (fun c => by cases c) (hr _ _ _ hq rfl)
     · rename_i sh' t hne hq
-      intro x h; injection h with h; subst h
-      exact ⟨(fun c => by cases c), hr _ _ _ hq rfl⟩
+      exact nocommitSel_closeIfEmpty env _ _ (fun c => by cases c) (hr _ _ _ hq rfl)
     · intro _ h; cases h
     · intro _ h; cases h
 
@@ -830,10 +842,25 @@ theorem tail_spec {sh : Shared D L} {st : St} {e' : Editor D L} {b : KB} (h : ta
 
 theorem len_eq (c : CompEditor) : c.len = c.inner.symbols.length := rfl
 
+theorem nocommit_newPhrase (sh : Shared D L) : NoCommit sh.commitBuf (newPhrase env sh) := by
+  unfold newPhrase
+  simp only
+  split
+  · nocommit_leaf
+  · intro _ _ h; cases h
+  · intro _ _ h; cases h
+
+theorem nocommit_openPhrase (sh : Shared D L) : NoCommit sh.commitBuf (openPhrase env sh) := by
+  intro sh' t h
+  rcases openPhrase_cases env h with ⟨h1, _⟩ | ⟨rfl, rfl⟩
+  · exact nocommit_newPhrase env sh sh' t h1
+  · exact ⟨(fun c => by cases c), rfl⟩
+
 theorem nocommit_startSelecting (sh : Shared D L) : NoCommit sh.commitBuf (startSelecting env sh) := by
-  unfold startSelecting newPhrase newSpecialSymbol
+  unfold startSelecting newSpecialSymbol
   repeat' (first | split | (dsimp only; split))
   all_goals first
+    | exact nocommit_openPhrase env _
     | nocommit_leaf
     | (intro _ _ h; cases h; done)
 
